@@ -532,15 +532,17 @@ class World:
             m = self.msgs[id_]
             kinds = sorted(p.kind for p in pr.get(id_, []))
             still = kinds == ["held"]
+            if still:
+                # taken again right after maintenance returned it?
+                t2 = srv.zadd_times.get(("processing", f"{m.topic}:{id_}".encode()))
+                if t2 is not None and t2 - vclock._EPOCH_TS > t_take + 1e-9:
+                    still = False
             if now < deadline - RES and not still and id_ in pr:
                 self.v("timeout-early-release", f"maintenance at {now:.6f} returned message {id_} taken at {t_take:.6f} although its "
                        f"execution timeout ends at {deadline:.6f}; places {kinds}", early_by=round(deadline - now, 3))
             if now > deadline + RES and still:
-                # still in flight: only legal if somebody took it again after maintenance
-                t2 = srv.zadd_times.get(("processing", f"{m.topic}:{id_}".encode()))
-                if t2 is None or t2 - vclock._EPOCH_TS <= t_take + 1e-9:
-                    self.v("timeout-not-released", f"maintenance at {now:.6f} left message {id_} in flight although it was taken at "
-                           f"{t_take:.6f} and its execution timeout ended at {deadline:.6f}")
+                self.v("timeout-not-released", f"maintenance at {now:.6f} left message {id_} in flight although it was taken at "
+                       f"{t_take:.6f} and its execution timeout ended at {deadline:.6f}")
             if now > deadline - RES and not still:
                 # timed out: whoever held it has lost it.  If that was a *live* client (or a live consumer's prefetch
                 # queue) the old copy can still be handed over / acted upon: remember it for the double-delivery facts
